@@ -88,6 +88,15 @@ func (f *Frame) appendSetFacts(st *State, el types.Type, srcRow Term, srcLen Ter
 	}
 	q := Term{"x!q", es}
 	vc.fact(Forall([]Term{q}, Eq(Select(app(content, newLen), q), Or(Select(app(srcRow, srcLen), q), Select(app(tRow, n), q))), []Term{Select(app(content, newLen), q)}))
+	// inverse membership for the appended slice (definitional: a member of the
+	// set of the first n elements sits at some index below n; idx is a Skolem
+	// function). Emitted for this one row only, so that element-wise facts about
+	// the appended slice carry over to the set view of the result.
+	if !vc.hasBound(tRow, n) {
+		idx := vc.declareFun("ES.idx|"+es.String(), []*Sort{SArr(SInt, es), SInt, es}, SInt)
+		at := mk(SInt, idx, tRow, n, q)
+		vc.fact(Forall([]Term{q}, Imp(Select(app(tRow, n), q), And(Le(Zero, at), Lt(at, n), Eq(Select(tRow, at), q))), []Term{Select(app(tRow, n), q)}))
+	}
 }
 
 // fsFun: set of a field over the elements of a pointer slice.
@@ -120,6 +129,13 @@ func (vc *VC) fsFun(el types.Type, field string) (fn string, fs *Sort, comp stri
 				app := func(r, hh, k Term) Term { return mk(setSort(fs), fn, r, hh, k) }
 				vc.fact(Forall([]Term{a, h}, Eq(app(a, h, Zero), ConstArr(setSort(fs), False)), []Term{app(a, h, Zero)}))
 				vc.fact(Forall([]Term{a, h, n, i}, Imp(And(Le(Zero, i), Lt(i, n)), Select(app(a, h, n), Select(h, Select(a, i)))), []Term{app(a, h, n), Select(h, Select(a, i))}))
+				// a member of the element set contributes its field to the field set
+				// (both are images of the same first n elements)
+				if efn, es, eok := vc.esFun(el); eok && es == SInt {
+					p := Term{"p!q", SInt}
+					mem := Select(mk(setSort(es), efn, a, n), p)
+					vc.fact(Forall([]Term{a, h, n, p}, Imp(mem, Select(app(a, h, n), Select(h, p))), []Term{mem, app(a, h, n), Select(h, p)}))
+				}
 			}
 			ok = true
 			return
